@@ -138,10 +138,14 @@ Proof. split; reflexivity. Qed.
 (* 2. glyf entries                                                                       *)
 
 (* Outlines of any number of contours and points, in either profile: whatever is written
-   decodes (running sums, as a rasteriser does) to exactly the rounded source points in
-   emission order, with exact contour ends and box.  No side condition: the coordinates,
-   their successive differences and the point count are checked before anything is
-   written. *)
+   decodes (running sums in unbounded integers, as a rasteriser does — NOT the wrapping
+   i16 sums of read-fonts) to exactly the rounded source points in emission order, with
+   exact contour ends and box.  No side condition: the coordinates, the steps between
+   successive points and the point count are checked before anything is written.  The
+   steps are those of the ONE sequence of all points of the glyph (glyf_points is the
+   concatenation of the contours, decode_simple one running sum over it): the step from
+   the last point of a contour to the first point of the next — which glyf stores as a
+   delta like any other — is covered, see glyf_seam_step_checked below. *)
 Theorem glyf_outline_never_wrapped : forall (p : profile) (cs : list contour) (o : glyf_out),
   simple_glyph p cs = Emit o -> outline_faithful cs o.
 Proof. exact simple_glyph_emit_faithful. Qed.
@@ -164,15 +168,37 @@ Proof.
 Qed.
 Print Assumptions glyf_outline_emitted_iff.
 
+(* Contour seams: in an emitted outline the step from the last emitted point of any contour
+   to the first emitted point of the contour that follows fits i16 in x and in y (so the
+   i16 subtraction of write-fonts at the seam cannot overflow, in either profile). *)
+Theorem glyf_seam_step_checked : forall p (before : list contour) c1 c2 after o q2 r2,
+  simple_glyph p (before ++ c1 :: c2 :: after) = Emit o ->
+  map round_pt (emit_order c2) = q2 :: r2 ->
+  let prev := glyf_points (before ++ [c1]) in
+  fits_i16 (fst q2 - List.last (map fst prev) 0) = true /\
+  fits_i16 (snd q2 - List.last (map snd prev) 0) = true.
+Proof. exact seam_step_checked. Qed.
+Print Assumptions glyf_seam_step_checked.
+
 Example glyf_outline_nonvacuous :
   let ok := [[(-16383, 0); (16384, 0); (16384, 100); (-16383, 100)]]%Q in
   let step := [[(-20000, 0); (20000, 0); (20000, 100); (-20000, 100)]]%Q in
   let coord := [[(39900, 0); (40000, 0); (40000, 100); (39900, 100)]]%Q in
+  let box x := [(x, 0); (x + 100, 0); (x + 100, 100); (x, 100)]%Q in
+  (* two contours: every coordinate and every step inside a contour fits; the seam step is
+     20000 - (-19900) = 39900, resp. 16483 - (-16284) = 32767 *)
+  let seam := [box (-20000); box 20000]%Q in
+  let seam_ok := [box (-16384); box 16483]%Q in
   outline_checksb ok = true /\
   omap dump_glyf (simple_glyph Release ok) =
     Emit [0; 1; 3; 4; -16383; 0; -16383; 100; 16384; 100; 16384; 0; -16383; 0; 16384; 100] /\
   simple_glyph Debug step = Reject /\ simple_glyph Release step = Reject /\
   simple_glyph Debug coord = Reject /\ simple_glyph Release coord = Reject /\
+  forallb (fun c => diffs_fitb 0 (map fst (glyf_points [c])) && diffs_fitb 0 (map snd (glyf_points [c]))) seam = true /\
+  simple_glyph Debug seam = Reject /\ simple_glyph Release seam = Reject /\
+  omap dump_glyf (simple_glyph Release seam_ok) =
+    Emit [0; 2; 3; 7; 8; -16384; 0; -16384; 100; -16284; 100; -16284; 0; 16483; 0; 16483; 100; 16583; 100; 16583; 0;
+          -16384; 0; 16583; 100] /\
   emitted (simple_glyph Release [zigzag 65535]) = true /\ simple_glyph Release [zigzag 65536] = Reject /\
   simple_glyph Debug [zigzag 65536] = Reject.
 Proof. cbv zeta. repeat split; vm_compute; reflexivity. Qed.
